@@ -226,14 +226,17 @@ def r3(fx):
                  hdr == want_hdr and ws and ws[0][3] == sum(w for _, w in want_hdr) and bool(is_sa) == (sa is not None), enc,
                  got=(hdr, ws[0][3] if ws else None, is_sa), want=(want_hdr, sum(w for _, w in want_hdr), sa is not None))
     cls = fx.forest.cls('encoder', '_StructuredAppendInfo')
-    new = fx.fn('encoder', '_StructuredAppendInfo.__new__')
-    r = single([s for s in new.body if isinstance(s, ast.Return)], 'return of _StructuredAppendInfo.__new__')
-    b = pat.need(r.value, 'super().__new__(cls, H_t)', '_StructuredAppendInfo.__new__')
-    yield ob('_StructuredAppendInfo = (0011, number, total, parity)', nf.same(b['t'], '(consts.MODE_STRUCTURED_APPEND, number, total, parity)')
-             and C(fx, 'MODE_STRUCTURED_APPEND') == 0b0011, r, got=ast.unparse(b['t']), want='(consts.MODE_STRUCTURED_APPEND, number, total, parity)')
-    props = {ast.unparse(s.targets[0]): ast.unparse(s.value) for s in cls.body if isinstance(s, ast.Assign)}
-    yield ob('field accessors', props.get('parity') == 'property(itemgetter(3))' and props.get('number') == 'property(itemgetter(1))'
-             and props.get('total') == 'property(itemgetter(2))', cls, got=props, want='itemgetter(1..3)')
+    genv_c = encoder_env(fx.forest, it)
+    try:
+        sai = genv_c['_StructuredAppendInfo'](5, 11, 0x5A)
+        fields = (tuple(sai), sai.mode, sai.number, sai.total, sai.parity)
+        bykw = tuple(genv_c['_StructuredAppendInfo'](number=5, total=11, parity=0x5A))
+    except PyRaise as ex:
+        fields, bykw = f'raises {ex.name}', None
+    sa_mode = C(fx, 'MODE_STRUCTURED_APPEND')
+    yield ob('_StructuredAppendInfo = (0011, number, total, parity)', sa_mode == 0b0011 and isinstance(fields, tuple) and fields[0] == (sa_mode, 5, 11, 0x5A)
+             and bykw == (sa_mode, 5, 11, 0x5A), cls, got=(fields, bykw), want='(0b0011, number, total, parity)')
+    yield ob('field accessors', isinstance(fields, tuple) and fields[1:] == (sa_mode, 5, 11, 0x5A), cls, got=fields, want='mode, number, total, parity = items 0..3')
     # parity
     pf = fx.fn('encoder', 'calc_structured_append_parity')
     seen = []
